@@ -1223,10 +1223,23 @@ static void run_c12(const Case &c, Src &rest, XorShift &x) {
     StringDictionary *d = do_build(cc);
     err = captured_since_mark();
     if (!d) return false;
+    // the hash representation (1..3) of HASHHF / HASHRPF is chosen when an image is loaded: these two kinds
+    // answer through an object loaded with the side's load option, so the option is one of the compared parameters
+    if (cc.p.kind == K_HASHHF || cc.p.kind == K_HASHRPF) {
+      std::string im0;
+      bool sv = do_save(d, im0);
+      do_destroy(d);
+      if (!sv) return false;
+      cur->state = "own";
+      d = do_load(cc, im0, true);
+      if (!d) return false;
+      cur->labels.insert("c12_loadopt" + std::to_string(cc.p.loadopt));
+      img = im0;   // a loaded object is not saved again here (re-saving is C08's business, F10/F11)
+    }
     Obj o{d, cc.p.kind, cc.S.size()};
     for (auto &q : q2) ans.push_back(answer(o, q));
     bool alive = !obj_dead;
-    if (alive) do_save(d, img);
+    if (alive && img.empty()) do_save(d, img);
     do_destroy(d);
     return alive;
   };
